@@ -26,25 +26,43 @@ def sites : List ((String × String × String) × String) :=
 theorem sites_covered : GenCompile.mapRangeSites = sites.map (·.1) := by decide
 
 /-- The integer conversions in compile/ are the ones the model performs: `wrap16` in
-`gatherFields`, `wrap32` in `gatherEnumItems`, `wrap32` and `doubleOfInt` in `castInt`
-(`int64(c)` is the identity on an int64). -/
+`gatherFields` and `wrap32` in `gatherEnumItems` (both after a bounds check, so they are the
+identity on what passes), `doubleOfInt` in `castInt`; the `int64(…)` conversions are widenings
+used by the range checks and the enum lookup. -/
 theorem conversions_ok : GenCompile.conversions =
     [("constant_value.go", "ConstantInt.Link", "float64(c)"),
-     ("constant_value.go", "ConstantInt.Link", "int32(c)"),
-     ("constant_value.go", "ConstantInt.Link", "int32(c)"),
      ("constant_value.go", "ConstantInt.Link", "int64(c)"),
+     ("constant_value.go", "ConstantInt.Link", "int64(c)"),
+     ("constant_value.go", "ConstantInt.Link", "int64(c)"),
+     ("constant_value.go", "ConstantInt.Link", "int64(item.Value)"),
+     ("constant_value.go", "ConstantInt.inRange", "int64(c)"),
+     ("constant_value.go", "ConstantInt.inRange", "int64(c)"),
      ("enum.go", "compileEnum", "int32(value)"),
      ("field.go", "compileField", "int16(src.ID)")] := by decide
 
-/-- `compileField`'s bounds check is the model's `idRejected` (math.MaxInt16 = 32767). -/
+/-- `compileField`'s bounds check is the model's `idRejected`
+(math.MaxInt16 = 32767, math.MinInt16 = -32768). -/
 theorem fieldIdCheck_ok :
-    GenCompile.fieldIdCheck = "(src.ID < 1 && !options.allowNegativeIDs) || src.ID > math.MaxInt16" ∧
-    ∀ allowNeg sid, idRejected allowNeg sid = ((decide (sid < 1) && !allowNeg) || decide (sid > 32767)) :=
+    GenCompile.fieldIdCheck =
+      "(src.ID < 1 && !options.allowNegativeIDs) || src.ID > math.MaxInt16 || src.ID < math.MinInt16" ∧
+    ∀ allowNeg sid, idRejected allowNeg sid =
+      ((decide (sid < 1) && !allowNeg) || decide (sid > 32767) || decide (sid < -32768)) :=
   ⟨by decide, fun _ _ => rfl⟩
 
-/-- `compileEnum` starts from `prev := -1` (`compileEnum` in the model). -/
+/-- `compileEnum` starts from `prev := -1` and rejects values outside int32
+(`enumValueRejected` in the model). -/
 theorem enumPrevInit_ok : GenCompile.enumPrevInit = "prev := -1" ∧
-    ∀ items, compileEnum items = gatherEnumItems items [] (-1) :=
+    GenCompile.enumValueCheck = "value < math.MinInt32 || value > math.MaxInt32" ∧
+    (∀ items, compileEnum items = gatherEnumItems items [] (-1)) ∧
+    ∀ v, enumValueRejected v = (decide (v < -2147483648) || decide (v > 2147483647)) :=
+  ⟨by decide, by decide, fun _ => rfl, fun _ => rfl⟩
+
+/-- `ConstantInt.Link` checks i8, i16 and i32 constants against the bounds of their type
+(`castInt`'s `inRange bits`). -/
+theorem intRangeChecks_ok : GenCompile.intRangeChecks =
+    ["c.inRange(t, math.MinInt8, math.MaxInt8)", "c.inRange(t, math.MinInt16, math.MaxInt16)",
+     "c.inRange(t, math.MinInt32, math.MaxInt32)"] ∧
+    (∀ n : Int, castInt (.int 8) n = if -128 ≤ n ∧ n < 128 then some (.int n) else none) :=
   ⟨by decide, fun _ => rfl⟩
 
 end ThriftVerif.Facts.ExpectCompile
